@@ -4,6 +4,7 @@
 //!        rmc <property-id> --replay <file>
 
 mod engine;
+mod env;
 mod props;
 
 use engine::{Tier, Violation};
@@ -13,6 +14,7 @@ type RunFn = fn(Tier) -> i32;
 type ReplayFn = fn(&Value) -> Vec<Violation>;
 
 const PROPS: &[(&str, RunFn, ReplayFn)] = &[
+    ("C05", props::c05::run, props::c05::replay),
     ("C12", props::c12::run, props::c12::replay),
     ("C13", props::c13::run, props::c13::replay),
     ("C16", props::c16::run, props::c16::replay),
